@@ -89,6 +89,18 @@ def _job(args):
                 depth_max = max(len(x) for x in list(dirs) + list(files)) - len(mp)
                 enc = rules.Enc()
                 cases, metas = [], []
+                # C09_deep_limit_is_identity on the implementation: a limit that no module name exceeds (externals included) is no limit
+                k_deep = max([m.count(".") for m in full[1]] + [0]) - len(mp) + 1 + (it % 3)
+                if k_deep >= 1:
+                    deep = scan.real_scan(base, root, mp, level_limit=k_deep, **opts)
+                    out["n"] += 1
+                    out["stats"]["limits_deeper_than_every_name"] = out["stats"].get("limits_deeper_than_every_name", 0) + 1
+                    if deep[:3] != full[:3]:
+                        out["violations"].append((dict(dirs=[list(d) for d in dirs], files={scan.dotted(f): (scan.render_v(v) if v["py"] else None) for f, v in files.items()},
+                                                       module_path=list(mp), level_limit=k_deep, options={kk: list(vv) if isinstance(vv, tuple) else vv for kk, vv in opts.items()},
+                                                       got=list(deep[1:3]) if deep[0] == "OK" else deep[1], full=list(full[1:3])),
+                                                  f"level_limit={k_deep} is deeper than every module name, yet the architecture differs from the unlimited one", {"kind": "quotient"}))
+                        continue
                 for k in range(0, max(1, depth_max) + 1):       # 0: everything collapses into module_path itself
                     lim = scan.real_scan(base, root, mp, level_limit=(True if k == 1 and it % 4 == 1 else k), **opts)      # True is the integer 1
                     out["n"] += 1
